@@ -1,0 +1,24 @@
+//go:build verif
+
+package sqlcrud
+
+// Contracts for the deductive verifier in /verif (govc). Comment-only file: with or without
+// the `verif` build tag it adds no declaration to the package.
+
+//@ func context.typeName
+//@   pure
+
+// ---------------------------------------------------------------- C16 (kernel)
+
+// the generated Go function takes one parameter and passes one argument per input of the query, in the same
+// order: parameter = (name of the input, printed type of the input), argument = name of the input
+//@ func context.generateCustomQueries
+//@   props C16
+//@   nosafety
+//@   modifies *
+//@   callarg fmt.Sprintf@1 1 match.VarName
+//@   callarg fmt.Sprintf@1 2 ctx.typeName(match.Type)
+//@   callarg fmt.Sprintf@2 1 match.VarName
+//@   callarg fmt.Sprintf@3 1 query.GoFunctionName
+//@   callarg fmt.Sprintf@3 2 signature
+//@   callarg fmt.Sprintf@3 4 argsSelect
